@@ -191,3 +191,81 @@ package raft
 //@   ensures [C18.identityreq-dec] result0 == nil ==> Consumed(r, 32) && EncIdentityReq(rdata[ref(r)], old(rpos[ref(r)]), req)
 //@   ensures [C18.truncated-is-error] (result0 == nil) == (32 <= old(Avail(r)))
 //@   ensures [C18.dec-frame] ConsumedSome(r)
+
+// ---- byte strings ------------------------------------------------------------------------
+// (length prefix is a uint32: values of 4 GiB and more are outside the encodable range)
+
+//@ func writeBytes
+//@   requires w != nil
+//@   modifies wdata, wlen
+//@   ensures [C18.bytes-enc] result0 == nil && len(b) < 4294967296 ==> Wrote(w, 4 + len(b)) && gword32(wdata[ref(w)], old(wlen[ref(w)])) == len(b) && forall(j, old(wlen[ref(w)]) + 4 <= j && j < wlen[ref(w)] ==> wdata[ref(w)][j] == raw(b, base(b) + (j - old(wlen[ref(w)]) - 4)))
+//@   ensures [C18.enc-frame] WroteSome(w)
+
+//@ func readBytes
+//@   requires r != nil
+//@   modifies rpos
+//@   ensures [C18.bytes-dec] result1 == nil ==> len(result0) == gword32(rdata[ref(r)], old(rpos[ref(r)])) && Consumed(r, 4 + len(result0)) && forall(p, base(result0) <= p && p < base(result0) + len(result0) ==> raw(result0, p) == rdata[ref(r)][old(rpos[ref(r)]) + 4 + (p - base(result0))])
+//@   ensures [C18.truncated-is-error] (result1 == nil) == (4 <= old(Avail(r)) && 4 + gword32(rdata[ref(r)], old(rpos[ref(r)])) <= old(Avail(r)))
+//@   ensures [C18.dec-frame] ConsumedSome(r)
+
+//@ func writeString
+//@   requires w != nil
+//@   modifies wdata, wlen
+//@   ensures [C18.string-enc] result0 == nil && len(s) < 4294967296 ==> Wrote(w, 4 + len(s)) && gword32(wdata[ref(w)], old(wlen[ref(w)])) == len(s) && forall(j, old(wlen[ref(w)]) + 4 <= j && j < wlen[ref(w)] ==> wdata[ref(w)][j] == strbyte(s, j - old(wlen[ref(w)]) - 4))
+//@   ensures [C18.enc-frame] WroteSome(w)
+
+//@ func readString
+//@   requires r != nil
+//@   modifies rpos
+//@   ensures [C18.string-dec] result1 == nil ==> len(result0) == gword32(rdata[ref(r)], old(rpos[ref(r)])) && Consumed(r, 4 + len(result0)) && forall(j, 0 <= j && j < len(result0) ==> strbyte(result0, j) == rdata[ref(r)][old(rpos[ref(r)]) + 4 + j])
+//@   ensures [C18.truncated-is-error] (result1 == nil) == (4 <= old(Avail(r)) && 4 + gword32(rdata[ref(r)], old(rpos[ref(r)])) <= old(Avail(r)))
+//@   ensures [C18.dec-frame] ConsumedSome(r)
+
+// ---- log entry ---------------------------------------------------------------------------
+
+//@ pure EncEntryHdr(d int, p int, e *entry) bool = gword(d, p) == e.index && gword(d, p+8) == e.term && d[p+16] == e.typ && gword32(d, p+17) == len(e.data)
+
+//@ func (*entry).encode
+//@   requires w != nil
+//@   modifies wdata, wlen
+//@   ensures [C18.entry-enc] result0 == nil && len(e.data) < 4294967296 ==> Wrote(w, 21 + len(e.data)) && EncEntryHdr(wdata[ref(w)], old(wlen[ref(w)]), e) && forall(j, old(wlen[ref(w)]) + 21 <= j && j < wlen[ref(w)] ==> wdata[ref(w)][j] == raw(e.data, base(e.data) + (j - old(wlen[ref(w)]) - 21)))
+//@   ensures [C18.enc-frame] WroteSome(w)
+
+//@ func (*entry).decode
+//@   requires r != nil
+//@   modifies rpos, all(e)
+//@   ensures [C18.entry-dec] result0 == nil ==> EncEntryHdr(rdata[ref(r)], old(rpos[ref(r)]), e) && Consumed(r, 21 + len(e.data)) && forall(p, base(e.data) <= p && p < base(e.data) + len(e.data) ==> raw(e.data, p) == rdata[ref(r)][old(rpos[ref(r)]) + 21 + (p - base(e.data))])
+//@   ensures [C18.truncated-is-error] (result0 == nil) == (21 <= old(Avail(r)) && 21 + gword32(rdata[ref(r)], old(rpos[ref(r)]) + 17) <= old(Avail(r)))
+//@   ensures [C18.dec-frame] ConsumedSome(r)
+
+// ---- responses ---------------------------------------------------------------------------
+
+//@ pure EncResp(d int, p int, v *resp) bool = gword(d, p) == v.term && d[p+8] == v.result
+
+//@ func (*resp).encode
+//@   requires w != nil
+//@   requires resp.result == unexpectedErr ==> resp.err != nil && (istype(resp.err, OpError) ==> as(resp.err, OpError).Err != nil)
+//@   modifies wdata, wlen
+//@   ensures [C18.resp-enc] result0 == nil && resp.result != unexpectedErr ==> Wrote(w, 9) && EncResp(wdata[ref(w)], old(wlen[ref(w)]), resp)
+//@   ensures [C18.resp-enc-err] result0 == nil && resp.result == unexpectedErr ==> wlen[ref(w)] >= old(wlen[ref(w)]) + 9 && EncResp(wdata[ref(w)], old(wlen[ref(w)]), resp)
+//@   ensures [C18.enc-frame] WroteSome(w)
+
+//@ func (*resp).decode
+//@   requires r != nil
+//@   modifies rpos, all(resp)
+//@   ensures [C18.resp-dec] result0 == nil ==> EncResp(rdata[ref(r)], old(rpos[ref(r)]), resp) && (resp.result != unexpectedErr ==> Consumed(r, 9) && resp.err == nil) && (resp.result == unexpectedErr ==> resp.err != nil)
+//@   ensures [C18.truncated-is-error] old(Avail(r)) < 9 ==> result0 != nil
+//@   ensures [C18.dec-frame] ConsumedSome(r)
+
+//@ func (*appendResp).encode
+//@   requires w != nil
+//@   requires resp.result == unexpectedErr ==> resp.err != nil && (istype(resp.err, OpError) ==> as(resp.err, OpError).Err != nil)
+//@   modifies wdata, wlen
+//@   ensures [C18.appendresp-enc] result0 == nil && resp.result != unexpectedErr ==> Wrote(w, 17) && EncResp(wdata[ref(w)], old(wlen[ref(w)]), resp) && gword(wdata[ref(w)], old(wlen[ref(w)]) + 9) == resp.lastLogIndex
+//@   ensures [C18.enc-frame] WroteSome(w)
+
+//@ func (*appendResp).decode
+//@   requires r != nil
+//@   modifies rpos, all(resp)
+//@   ensures [C18.appendresp-dec] result0 == nil && resp.result != unexpectedErr ==> Consumed(r, 17) && EncResp(rdata[ref(r)], old(rpos[ref(r)]), resp) && gword(rdata[ref(r)], old(rpos[ref(r)]) + 9) == resp.lastLogIndex
+//@   ensures [C18.dec-frame] ConsumedSome(r)
